@@ -5,23 +5,31 @@ from anytree import LevelOrderGroupIter, LevelOrderIter, PostOrderIter, PreOrder
 
 from .. import forest, nodes, refs, shapes, strategies
 from ..core import Violation
+from . import c05
 
 PROP_ID = "C06"
 LEVEL = "exploration"
 QUICK_N, THOROUGH_N = 5, 6
 RULE = (
-    "cases = (shape, start node, stop set, filtered-out set, maxlevel, how empty predicates are passed). The complete product "
+    "cases = (shape, start node, stop set, filtered-out set, maxlevel, how empty predicates are passed, what the predicates return: bools, 1/0, 'x'/'' or [0]/None). The complete product "
     "is enumerated on every shape with <= 5 nodes (quick) / <= 6 nodes (thorough; plus all 7-node shapes with the root as start): every start node x every subset of the start's "
     "subtree as stop set x every subset as filtered-out set x maxlevel in {None, -1, 0, ..., subtree height + 2}; Hypothesis adds "
-    "trees up to 25 nodes with random subsets. Non-trivial = at least two of {stop, filter_, maxlevel} actually remove an "
+    "trees up to 25 nodes with random subsets, re-checked after mutations, with iterator objects also consumed in two portions. Non-trivial = at least two of {stop, filter_, maxlevel} actually remove an "
     "otherwise admitted node. Enumerated cases are distinct by construction; generated ones are hashed."
 )
 ASSUMPTIONS = [
+    "the traversal of a subtree is defined by .children alone: one node class (ShadowMRO) inherits unrelated class attributes named is_leaf/depth/height/size/... from a base listed before NodeMixin, and is iterated like any other",
     "reference = unrestricted reference order restricted to the admitted set (relative depth < maxlevel, no stop node on the path from the start node down to the node inclusive), then to filter-true nodes",
     "grouped iterators: one tuple per depth level that contains at least one admitted node",
-    "predicates are pure functions of node identity",
+    "predicates are pure functions of node identity; only the truth value of what they return matters",
+    "an iterator object that has not handed out anything yet is lazy: it answers for the tree and the predicates as they are when it is consumed (generated cases only)",
 ]
 _CACHE = {}
+class PredicateBoom(Exception):
+    """Raised by a user predicate half-way through an iteration."""
+
+
+TRUTH_STYLES = [(True, False), (1, 0), ("x", ""), ([0], None)]
 
 
 def _tree(case):
@@ -38,12 +46,47 @@ def check_case(case, acc):
         labels = forest.Labels(tree)
         _once(case, acc, tree, labels)
         for op in case["mutations"]:
+            # iterator objects made before the change and not started yet answer for the tree as it is when they are used
+            waiting, stop_ids, hide_ids = _make_waiting(case, tree)
             refs.mutate_tree(tree, op)
+            _check_waiting(case, tree, waiting, stop_ids, hide_ids, "the tree changed")
             _once(case, acc, tree, labels)
             acc.tag("rechecked_after_mutation")
+        # ... and for the predicates' answers at that time (a stop predicate that starts or ceases to hold for the start node)
+        waiting, stop_ids, hide_ids = _make_waiting(case, tree)
+        stop_ids.symmetric_difference_update({id(tree[case["start"]])})
+        _check_waiting(case, tree, waiting, stop_ids, hide_ids, "stop(start node) changed its answer")
         return
     tree = _tree(case)
     _once(case, acc, tree, forest.Labels(tree))
+
+
+ITERATORS = (PreOrderIter, PostOrderIter, LevelOrderIter, LevelOrderGroupIter, ZigZagGroupIter)
+
+
+def _make_waiting(case, tree):
+    start = tree[case["start"]]
+    stop_ids = {id(tree[i]) for i in case["stop"]}
+    hide_ids = {id(tree[i]) for i in case["hide"]}
+    kw = dict(filter_=lambda n: id(n) not in hide_ids, stop=lambda n: id(n) in stop_ids, maxlevel=case["maxlevel"])
+    return [cls(start, **kw) for cls in ITERATORS], stop_ids, hide_ids
+
+
+def _check_waiting(case, tree, waiting, stop_ids, hide_ids, what):
+    start = tree[case["start"]]
+    admitted = refs.admitted_ids(start, stop_ids, case["maxlevel"])
+    groups = refs.restricted_groups(start, admitted, hide_ids)
+    wants = [
+        refs.restricted(refs.preorder(start), admitted, hide_ids),
+        refs.restricted(refs.postorder(start), admitted, hide_ids),
+        refs.restricted(refs.levelorder(start), admitted, hide_ids),
+        [tuple(g) for g in groups],
+        [tuple(g) for g in refs.zigzag(groups)],
+    ]
+    for it, want in zip(waiting, wants):
+        got = list(it)
+        if [c05._ids(x) for x in got] != [c05._ids(x) for x in want]:
+            raise Violation("created-earlier", "%s created before %s and used afterwards yields %d items, the current tree and predicates give %d (start=%s stop=%s hide=%s maxlevel=%s)" % (type(it).__name__, what, len(got), len(want), case["start"], case["stop"], case["hide"], case["maxlevel"]))
 
 
 def _once(case, acc, tree, labels):
@@ -53,12 +96,14 @@ def _once(case, acc, tree, labels):
     maxlevel = case["maxlevel"]
     before = forest.snapshot(tree, labels)
 
+    # what a predicate returns is only judged by its truth value: besides bools, 1/0, 'x'/'' and [0]/None are returned
+    yes, no = TRUTH_STYLES[case.get("truth", 0) % len(TRUTH_STYLES)]
     if case["stop"] or not case.get("none_when_empty", True):
-        stop = lambda n: id(n) in stop_ids  # noqa: E731
+        stop = lambda n: yes if id(n) in stop_ids else no  # noqa: E731
     else:
         stop = None
     if case["hide"] or not case.get("none_when_empty", True):
-        filter_ = lambda n: id(n) not in hide_ids  # noqa: E731
+        filter_ = lambda n: yes if id(n) not in hide_ids else no  # noqa: E731
     else:
         filter_ = None
 
@@ -79,6 +124,22 @@ def _once(case, acc, tree, labels):
         stale = cls(start, **kw)
         next(stale, None)
         next(stale, None)
+    # neither must an iteration that ended in an exception raised by a user predicate
+    boom_at = case.get("boom", 1)
+    for cls in (PreOrderIter, PostOrderIter, LevelOrderIter, LevelOrderGroupIter, ZigZagGroupIter):
+        for which in ("filter_", "stop"):
+            calls = [0]
+
+            def raising(node, calls=calls):
+                calls[0] += 1
+                if calls[0] > boom_at:
+                    raise PredicateBoom()
+                return which == "filter_"
+
+            try:
+                list(cls(start, **{which: raising, "maxlevel": maxlevel}))
+            except PredicateBoom:
+                pass
     got = list(PreOrderIter(start, **kw))
     if not refs.same_seq(got, exp_pre):
         raise Violation("preorder", "%s expected %s got %s" % (ctx, lab(exp_pre), lab(got)))
@@ -108,6 +169,12 @@ def _once(case, acc, tree, labels):
     got = list(ZigZagGroupIter(start, filter_, stop, maxlevel))
     if len(got) != len(exp_zz) or not all(refs.same_seq(g, e) for g, e in zip(got, exp_zz)):
         raise Violation("zigzag-positional", ctx)
+    # a restricted iterator object used in two portions hands out the same sequence
+    for mode, k in case.get("portions") or []:
+        for cls, want in ((PreOrderIter, exp_pre), (PostOrderIter, exp_post), (LevelOrderIter, exp_level), (LevelOrderGroupIter, [tuple(g) for g in exp_groups]), (ZigZagGroupIter, [tuple(g) for g in exp_zz])):
+            got = c05.consume(cls(start, **kw), mode, k)
+            if [c05._ids(x) for x in got] != [c05._ids(x) for x in want]:
+                raise Violation("resumed-iteration", "%s: %s used in two portions (%s, first %d) yields %d items, expected %d" % (ctx, cls.__name__, mode, k, len(got), len(want)))
     if forest.snapshot(tree, labels) != before:
         raise Violation("no-mutation", "tree changed by iteration")
 
@@ -163,7 +230,9 @@ def _enum_cases(max_nodes, index, count, min_nodes=1, root_only=False):
                             "hide": hide,
                             "maxlevel": maxlevel,
                             "none_when_empty": bool(variant % 2),
-                            "cls": ("Node", "SlotLM", "EqNode", "FalsyNode", "Node", "LenNode", "Node", "ListNode", "TupleNode", "Node", "Node")[variant % 11],
+                            "truth": variant // 2,
+                            "boom": variant % 4,
+                            "cls": ("Node", "SlotLM", "EqNode", "FalsyNode", "Node", "LenNode", "Node", "ListNode", "TupleNode", "Node", "ShadowMRO")[variant % 11],
                         }
 
 
@@ -182,7 +251,10 @@ def random_cases(draw):
         "hide": hide,
         "maxlevel": maxlevel,
         "none_when_empty": draw(st.booleans()),
-        "cls": draw(st.sampled_from(nodes.TREE_CLASSES)),
+        "truth": draw(st.integers(0, 3)),
+        "boom": draw(st.integers(0, 6)),
+        "portions": draw(st.lists(st.tuples(st.sampled_from(c05.CONSUME_MODES), st.integers(0, 8)).map(list), max_size=2)),
+        "cls": draw(st.sampled_from(nodes.TREE_CLASSES + ["ShadowMRO"])),
         "mutations": draw(strategies.tree_mutations()),
     }
 
